@@ -356,10 +356,10 @@ func c01RunErrTextCase(r *h.Result, rng *h.Rng, i int, sp errTextSpec) (string, 
 		rig.handler(w, req)
 	}()
 	ans, status := "hang", -1
-	select {
-	case <-done:
+	doneCode := make(chan int, 1)
+	go func() { <-done; doneCode <- 0 }()
+	if code, _ := rig.await(doneCode, 20*time.Second); code >= 0 {
 		ans, status = w.answer()
-	case <-time.After(20 * time.Second):
 	}
 	rig.stop()
 	// what the fake database accepted
